@@ -3,6 +3,8 @@
 seed=$1; tier=$2; shift 2
 ids="$@"; [ -z "$ids" ] && ids="C01 C02 C03 C04 C05 C06 C07 C08 C09 C10 C11 C12 C13 C14 C15 C16 C17 C18 C19 C20"
 cd /verif
+# a failing "flex -o /dev/null" run as root unlinks /dev/null (flex removes its output on error)
+[ -c /dev/null ] || { rm -f /dev/null; mknod -m 666 /dev/null c 1 3; }
 noev=; [ "$seed" != 1 ] && noev=1
 for id in $ids; do
   s=$(date +%s)
